@@ -252,6 +252,7 @@ func Load(cfgName string) (*Program, error) {
 	for n := range asmByName {
 		p.Problems = append(p.Problems, "assembly TEXT "+n+" has no Go declaration")
 	}
+	p.resolveReceiverKinds()
 	p.resolveAliases()
 	p.resolveByReference()
 	p.assertStructure()
